@@ -68,8 +68,46 @@ def minimise(spec, key, budget_s=60):
     return wp.minimise_spec(spec, fails, budget_s)
 
 
+def widen(spec, seed):
+    """A quarter of the runs leave the small standard ranges: more mutations and samples, deep reads, high copy numbers,
+    other grid sizes and precisions, more iterations and particles (the cost cap still applies)."""
+    import random
+
+    r = random.Random(seed ^ 0xC19)
+    if r.random() >= 0.25:
+        return spec
+    n_mut = r.choice([9, 12, 16, 25, 40])
+    n_samples = r.choice([1, 2, 4, 5])
+    samples = ["T%d" % i for i in range(n_samples)]
+    rows = []
+    for m in range(n_mut):
+        for s_ in samples:
+            depth = r.choice([30, 200, 2000, 10000, 50000])
+            major = r.choice([1, 2, 3, 5, 6])
+            minor = r.choice([x for x in (0, 1, 2, 3) if x <= major])
+            vaf = min(0.97, r.choice([1.0, 0.6, 0.3, 0.05, 0.0]) / (major + minor))
+            alt = int(round(depth * vaf * r.uniform(0.8, 1.2)))
+            alt = max(0, min(depth, alt))
+            rows.append({"mutation_id": "var %d/%s" % (m, "x" * (m % 3)), "sample_id": s_, "ref_counts": depth - alt, "alt_counts": alt, "major_cn": major,
+                         "minor_cn": minor, "normal_cn": r.choice([2, 2, 1]), "tumour_content": r.choice([1.0, 0.999, 0.3]), "error_rate": r.choice([0.001, 0.01])})
+    r.shuffle(rows)
+    cols = ["mutation_id", "sample_id", "ref_counts", "alt_counts", "major_cn", "minor_cn", "normal_cn", "tumour_content", "error_rate"]
+    spec["inputs"] = {"rows": rows, "cols": cols, "sep": "\t", "samples": samples, "cluster_rows": None}
+    if r.random() < 0.4:
+        ids = r.sample(range(100, 100000), r.randint(2, 6))
+        names = sorted(set(row["mutation_id"] for row in rows))
+        spec["inputs"]["cluster_rows"] = [{"mutation_id": m_, "sample_id": s_, "cluster_id": ids[i % len(ids)]} for i, m_ in enumerate(names) for s_ in samples]
+    o = spec["options"]
+    o["grid_size"] = r.choice([12, 15, 33, 50, 101])
+    o["precision"] = r.choice([5.0, 400.0, 1000.0])
+    o["num_iters"] = r.choice([3, 45, 60])
+    o["num_particles"] = r.choice([2, 8, 30])
+    o["num_samples_data_point"] = r.choice([1, 3])
+    return spec
+
+
 def task(seed):
-    spec = wp.spec_from_seed(seed, boundary=True)
+    spec = widen(wp.spec_from_seed(seed, boundary=True), seed)
     # keep a single run inside the budget: the cross product is sampled, not the product of all maxima
     while cost(spec) > 20000:
         o = spec["options"]
@@ -77,8 +115,10 @@ def task(seed):
             o["num_iters"] = max(2, o["num_iters"] // 3)
         elif o["num_particles"] > 3:
             o["num_particles"] = 3
-        elif o["grid_size"] > 11:
-            o["grid_size"] = 11
+        elif o["num_chains"] > 1:
+            o["num_chains"] = 1
+        elif o["grid_size"] > 15:
+            o["grid_size"] = 15
         else:
             break
     problems, info = evaluate(spec)
@@ -96,7 +136,7 @@ def task(seed):
 
 def run(ctx):
     wp.warm_up()
-    n = 1600 if ctx.tier == "quick" else 60000
+    n = 1200 if ctx.tier == "quick" else 60000
     seeds = [ctx.sub(("run", i)) for i in range(n)]
     deadline = ctx.t0 + (95 if ctx.tier == "quick" else 3300)
     res = runner.pmap(task, seeds, timeout=900, deadline=deadline)
